@@ -164,6 +164,7 @@ func runCheck(o *checkOpts) int {
 					w := newWorld()
 					ex := &Exec{w: w, prog: prog, count: map[string]int{}, heapS: map[string]*Sort{}, heapGo: map[string]types.Type{}, typedKeys: map[string]bool{}, closures: map[string]*closureInfo{}, extUsed: map[string]bool{}}
 					ex.topTsub = inst
+				ex.activeProp = o.prop
 					ex.instName = inames[ii]
 					ex.wrap64 = fi.Spec.IntWidth64
 					rep := funcReport{Name: fi.FullName() + inames[ii]}
